@@ -100,96 +100,9 @@ def eval_annotation(ctx, node, module):
     raise Unmodelled(f'annotation {ast.unparse(node)}')
 
 
-class Param(PyModel):
-    VAR_POSITIONAL = 'VAR_POSITIONAL'
-    POSITIONAL_OR_KEYWORD = 'POSITIONAL_OR_KEYWORD'
-    KEYWORD_ONLY = 'KEYWORD_ONLY'
-    VAR_KEYWORD = 'VAR_KEYWORD'
-    POSITIONAL_ONLY = 'POSITIONAL_ONLY'
-    empty = Ref('ext:inspect.Parameter.empty')
-
-    def __init__(self, name, kind, annotation, default):
-        self.name, self.kind, self.annotation, self.default = name, kind, annotation, default
-
-
-class Bound(PyModel):
-    def __init__(self, sig, arguments):
-        self.signature = sig
-        self.arguments = arguments
-
-    @property
-    def args(self):
-        out = []
-        for p in self.signature.parameters.values():
-            if p.kind == Param.VAR_POSITIONAL:
-                out.extend(self.arguments.get(p.name, ()))
-            elif p.kind in (Param.POSITIONAL_OR_KEYWORD, Param.POSITIONAL_ONLY) and p.name in self.arguments:
-                out.append(self.arguments[p.name])
-        return tuple(out)
-
-    @property
-    def kwargs(self):
-        return {p.name: self.arguments[p.name] for p in self.signature.parameters.values()
-                if p.kind == Param.KEYWORD_ONLY and p.name in self.arguments}
-
-
-class Signature(PyModel):
-    empty = Ref('ext:inspect.Signature.empty')
-
-    def __init__(self, ctx, module, fnode):
-        self.parameters = {}
-        a = fnode.args
-        pos = list(a.posonlyargs) + list(a.args)
-        defaults = [None] * (len(pos) - len(a.defaults)) + list(a.defaults)
-        it = Interp(ctx.a, module, {})
-        for p, d in zip(pos, defaults):
-            self.parameters[p.arg] = Param(p.arg, Param.POSITIONAL_OR_KEYWORD, eval_annotation(ctx, p.annotation, module),
-                                           it.ev(d) if d is not None else Param.empty)
-        if a.vararg:
-            self.parameters[a.vararg.arg] = Param(a.vararg.arg, Param.VAR_POSITIONAL, eval_annotation(ctx, a.vararg.annotation, module), Param.empty)
-        for p, d in zip(a.kwonlyargs, a.kw_defaults):
-            self.parameters[p.arg] = Param(p.arg, Param.KEYWORD_ONLY, eval_annotation(ctx, p.annotation, module),
-                                           it.ev(d) if d is not None else Param.empty)
-        if a.kwarg:
-            self.parameters[a.kwarg.arg] = Param(a.kwarg.arg, Param.VAR_KEYWORD, eval_annotation(ctx, a.kwarg.annotation, module), Param.empty)
-        self.return_annotation = eval_annotation(ctx, fnode.returns, module) if fnode.returns is not None else Signature.empty
-
-    def bind(self, *args, **kw):
-        arguments = {}
-        args = list(args)
-        for p in self.parameters.values():
-            if p.kind in (Param.POSITIONAL_OR_KEYWORD, Param.POSITIONAL_ONLY):
-                if args:
-                    arguments[p.name] = args.pop(0)
-                elif p.name in kw:
-                    arguments[p.name] = kw.pop(p.name)
-                elif p.default is Param.empty:
-                    raise ExcRaised(Ref('builtin:TypeError'))
-            elif p.kind == Param.VAR_POSITIONAL:
-                arguments[p.name] = tuple(args)
-                args = []
-            elif p.kind == Param.KEYWORD_ONLY:
-                if p.name in kw:
-                    arguments[p.name] = kw.pop(p.name)
-                elif p.default is Param.empty:
-                    raise ExcRaised(Ref('builtin:TypeError'))
-            elif p.kind == Param.VAR_KEYWORD:
-                arguments[p.name] = dict(kw)
-                kw = {}
-        if args or kw:
-            raise ExcRaised(Ref('builtin:TypeError'))
-        return Bound(self, arguments)
-
-
 def protocol_models(ctx):
-    """call_models for everything that goes through inspect / typing."""
-    def signature(func):
-        if isinstance(func, Ref):
-            m, node = ctx.res.lookup(func.ref)
-            if isinstance(node, ast.FunctionDef):
-                return Signature(ctx, m, node)
-        raise Unmodelled(f'inspect.signature of {func!r}')
-    return {'ext:inspect.signature': signature}
+    """(kept for callers) inspect.signature and the typing forms are modelled by the interpreter itself."""
+    return {}
 
 
 def registered(ctx, name):
@@ -200,17 +113,15 @@ def registered(ctx, name):
 
 
 def call(ctx, name, args, world=None, models=None, kwargs=None):
-    """Interpret the call of the registered function `name` as the evaluator performs it: the object stored in the registry
-    (validate_args wrapper when the function has one) applied to the arguments. Returns the Outcome."""
+    """Interpret the call of the registered function `name` as the evaluator performs it: the object that the decorators of
+    the function produce (validate_args wrapper, private decorators ...; the registration decorator returns it unchanged) applied
+    to the arguments. Returns the Outcome."""
     f = registered(ctx, name)
     xm = ctx.mod('xlfunctions.xl')
-    cm = dict(protocol_models(ctx))
-    cm.update(models or {})
     fref = Ref(f'pkg:{f.module.name}:{f.node.name}')
     env = {'__f': fref, '__args': tuple(args), '__kw': dict(kwargs or {})}
-    it = Interp(ctx.a, xm, env, inline_pkg=True, world=world if world is not None else World(), call_models=cm)
-    prog = 'return validate_args(__f)(*__args, **__kw)' if f.validated else 'return __f(*__args, **__kw)'
-    return it.run(ast.parse(prog).body)
+    it = Interp(ctx.a, xm, env, inline_pkg=True, world=world if world is not None else World(), call_models=dict(models or {}))
+    return it.run(ast.parse('return __f(*__args, **__kw)').body)
 
 
 # ------------------------------------------------------------------------------------------------------------
